@@ -4,13 +4,19 @@ import (
 	"fmt"
 	"math"
 	"math/big"
+	"strings"
 	"sync"
 	"testing"
 
 	sdkmath "cosmossdk.io/math"
 	storetypes "cosmossdk.io/store/types"
+	abci "github.com/cometbft/cometbft/abci/types"
 	cmtproto "github.com/cometbft/cometbft/proto/tendermint/types"
 	sdk "github.com/cosmos/cosmos-sdk/types"
+	authtypes "github.com/cosmos/cosmos-sdk/x/auth/types"
+	govtypes "github.com/cosmos/cosmos-sdk/x/gov/types"
+	govv1 "github.com/cosmos/cosmos-sdk/x/gov/types/v1"
+	stakingtypes "github.com/cosmos/cosmos-sdk/x/staking/types"
 	"pgregory.net/rapid"
 
 	feemarkettypes "github.com/EscanBE/evermint/v12/x/feemarket/types"
@@ -258,6 +264,17 @@ func TestC09Func(t *testing.T) { runProp(t, "C09", genC09Func, runC09Func) }
 type c09HistCase struct {
 	World  chain.World `json:"world"`
 	Blocks []BlockPlan `json:"blocks"`
+	// RealGov, when set, sends the fee-market parameter update through the real governance flow instead of emulating its
+	// enactment: before block At, key 0 bonds a large stake, submits the proposal and votes; it is enacted by the gov end
+	// blocker of whichever later block closes the (2 s) voting period - the fee-market end blocker of that same block must
+	// then work from the enacted parameters
+	RealGov *c09RealGov `json:"real_gov,omitempty"`
+}
+
+type c09RealGov struct {
+	At          int    `json:"at"`
+	BaseFee     string `json:"base_fee"`
+	MinGasPrice string `json:"min_gas_price"`
 }
 
 func genC09Hist(t *rapid.T) c09HistCase {
@@ -302,6 +319,15 @@ func genC09Hist(t *rapid.T) c09HistCase {
 		}
 		cs.Blocks = append(cs.Blocks, bp)
 	}
+	if rapid.IntRange(0, 3).Draw(t, "realgov") == 0 {
+		cs.World.GovFast = true
+		cs.RealGov = &c09RealGov{At: rapid.IntRange(0, len(cs.Blocks)-1).Draw(t, "govat"),
+			BaseFee:     rapid.SampledFrom([]string{"0", "7", "1000", "1000000000", "7000000000"}).Draw(t, "realbasefee"),
+			MinGasPrice: rapid.SampledFrom([]string{"0", "0.5", "2000", "2000000000", "3000000000.5"}).Draw(t, "realmin")}
+		for i := range cs.Blocks {
+			cs.Blocks[i].GovFee = nil // one source of parameter changes per history
+		}
+	}
 	return cs
 }
 
@@ -327,7 +353,60 @@ func runC09Hist(cs c09HistCase) *Outcome {
 		}
 		return e
 	}
-	for bi, bp := range cs.Blocks {
+	queue := append([]BlockPlan{}, cs.Blocks...)
+	var enacted *feemarkettypes.Params // parameters of the real proposal, once we know them
+	if cs.RealGov != nil {
+		bf, _ := sdkmath.NewIntFromString(cs.RealGov.BaseFee)
+		mp, _ := sdkmath.LegacyNewDecFromStr(cs.RealGov.MinGasPrice)
+		enacted = &feemarkettypes.Params{BaseFee: bf, MinGasPrice: mp}
+		if enacted.Validate() != nil {
+			enacted = nil
+		}
+		// room for the voting period to close
+		queue = append(queue, BlockPlan{Dt: 2}, BlockPlan{Dt: 2}, BlockPlan{Dt: 1})
+	}
+	for bi := 0; bi < len(queue); bi++ {
+		bp := queue[bi]
+		if cs.RealGov != nil && enacted != nil && bi == cs.RealGov.At && bp.Dt >= 0 {
+			// two blocks of governance txs by key 0, built against the state of the moment
+			for step := 0; step < 2; step++ {
+				ctx := c.CommittedCtx()
+				accNum, seq, _ := c.AccountInfo(ctx, chain.K(0).Acc())
+				floor := newPlanBuilder(c).floor
+				fee := new(big.Int).Mul(new(big.Int).Add(floor, big.NewInt(1)), big.NewInt(900000))
+				var msgs []sdk.Msg
+				if step == 0 {
+					stake, _ := sdkmath.NewIntFromString("100000000000000000000000")
+					prop, perr := govv1.NewMsgSubmitProposal([]sdk.Msg{&feemarkettypes.MsgUpdateParams{Authority: authtypes.NewModuleAddress(govtypes.ModuleName).String(), Params: *enacted}},
+						sdk.NewCoins(sdk.NewCoin(chain.Denom, sdkmath.NewInt(10))), chain.K(0).Acc().String(), "", "fee market", "new fee market parameters", false)
+					if perr != nil {
+						o.Excluded = "cannot build the proposal: " + perr.Error()
+						return o
+					}
+					msgs = []sdk.Msg{&stakingtypes.MsgDelegate{DelegatorAddress: chain.K(0).Acc().String(), ValidatorAddress: chain.ValOperKey(0).Val().String(), Amount: sdk.NewCoin(chain.Denom, stake)}, prop}
+				} else {
+					msgs = []sdk.Msg{govv1.NewMsgVote(chain.K(0).Acc(), 1, govv1.OptionYes, "")}
+				}
+				bz, berr := chain.CosmosTx{Signer: 0, Msgs: msgs, Gas: 900000, FeeAmount: fee.String()}.Build(c.TxCfg, c.World.CID(), accNum, seq)
+				if berr != nil {
+					o.Excluded = "cannot build the governance tx: " + berr.Error()
+					return o
+				}
+				gres, gerr := c.RunBlock(chain.Block{Dt: 0, Txs: [][]byte{bz}})
+				if gerr != nil || len(gres.TxResults) != 1 || gres.TxResults[0].Code != 0 {
+					o.Excluded = "the governance set-up tx was not accepted"
+					if gerr == nil && len(gres.TxResults) == 1 {
+						if strings.Contains(gres.TxResults[0].Log, "exceeds block max gas") {
+							o.Excluded = "the governance set-up tx does not fit into this world's block gas limit"
+						} else {
+							o.Excluded += ": " + truncS(gres.TxResults[0].Log, 120)
+						}
+					}
+					return o
+				}
+			}
+			o.label("hist:real-proposal-submitted")
+		}
 		recs := runBlockPlans(c, []BlockPlan{bp}, snap)
 		br := recs[0]
 		if br.Err != nil {
@@ -339,6 +418,13 @@ func runC09Hist(cs c09HistCase) *Outcome {
 			return o
 		}
 		end := br.End.(*c09End)
+		if enacted != nil && c09ProposalPassed(br.Res.Events) {
+			// the gov end blocker enacted the proposal in this block, after the observation point: the fee-market end
+			// blocker (which runs after it) works from the enacted parameters
+			end = &c09End{Consumed: end.Consumed, BaseFee: enacted.BaseFee.BigInt(), MinInt: enacted.MinGasPrice.TruncateInt().BigInt()}
+			o.label("hist:real-proposal-enacted")
+			o.NonTrivial = true
+		}
 		want, defined := nextBaseFeeOracle(end.BaseFee, end.Consumed, cs.World.MaxGas, end.MinInt)
 		evs := findEvents(br.Res.Events, "fee_market")
 		if len(evs) != 1 {
@@ -369,7 +455,7 @@ func runC09Hist(cs c09HistCase) *Outcome {
 			}
 		}
 		// no admitted tx below the floor (the parameters the block's txs were admitted under: before a governance update)
-		adm := end
+		adm := br.End.(*c09End) // (not the enacted parameters of a real proposal: those take effect after the block's txs)
 		if br.PreGov != nil {
 			adm = br.PreGov.(*c09End)
 		}
@@ -415,3 +501,18 @@ func floorAtBuild(br blockRecord, _ txRecord) *big.Int {
 }
 
 func TestC09Hist(t *testing.T) { runProp(t, "C09", genC09Hist, runC09Hist) }
+
+// c09ProposalPassed reports whether the gov end blocker of this block executed a passed proposal.
+func c09ProposalPassed(evs []abci.Event) bool {
+	for _, e := range evs {
+		if e.Type != "active_proposal" {
+			continue
+		}
+		for _, a := range e.Attributes {
+			if a.Key == "proposal_result" && a.Value == "proposal_passed" {
+				return true
+			}
+		}
+	}
+	return false
+}
